@@ -8,7 +8,7 @@
 //!     plan (client writes): comma-separated `h<hex>` = one write, `p<ms>` = pause.  end: fin = client half-closes after
 //!     the plan and keeps reading; wait = client only reads until the server closes; rst = client shuts the socket down
 //!     in both directions (abrupt disconnect; what the server wrote cannot be observed reliably).
-//!     -> res=<r;r;..> out=<hex of every byte the server wrote> eof=<0|1> peak=<peak heap growth on the server side>
+//!     -> res=<r;r;..> out=<hex of every byte the server wrote> eof=<0|1> peak=<largest heap growth during one recv() call>
 //!        r = T:<digest> text message, valid UTF-8 (`text()` is Some) | t:<digest> text flag, `text()` is None
 //!          | B:<digest> binary | E:closed | E:read | E:opcode | E:write | E:handshake | E:send
 //! c11_nb <steps>
@@ -104,7 +104,7 @@ fn show_err(e: &WebsocketError) -> String {
 /// reads the client side until EOF (or the hard limit); returns (bytes, eof seen)
 fn reader(mut c: TcpStream) -> std::thread::JoinHandle<(Vec<u8>, bool)> {
     // buffers are allocated here, before the server side starts metering its heap growth
-    let mut out: Vec<u8> = Vec::with_capacity(4096);
+    let mut out: Vec<u8> = Vec::with_capacity(65536);
     let mut buf = vec![0u8; 65536];
     std::thread::spawn(move || {
         let t0 = Instant::now();
@@ -174,17 +174,20 @@ fn run_blocking(echo: bool, limit: Option<usize>, end: &str, plan: &str) -> Stri
     let (tx, rx) = channel::<(Vec<String>, usize)>();
     let rd = reader(cli.try_clone().unwrap());
     let server = std::thread::spawn(move || {
-        let base = crate::meter::start();
         let mut ws = WebsocketStream::new(Stream::Tcp(srv));
         let mut log: Vec<String> = Vec::new();
         let mut delivered = 0usize;
+        let mut peak = 0usize; // largest heap growth during a single recv() call
         loop {
             if let Some(n) = limit {
                 if delivered >= n {
                     break;
                 }
             }
-            match ws.recv() {
+            let base = crate::meter::start();
+            let r = ws.recv();
+            peak = peak.max(crate::meter::peak_since(base));
+            match r {
                 Ok(m) => {
                     delivered += 1;
                     log.push(show_msg(&m));
@@ -199,7 +202,6 @@ fn run_blocking(echo: bool, limit: Option<usize>, end: &str, plan: &str) -> Stri
                 }
             }
         }
-        let peak = crate::meter::peak_since(base);
         drop(ws); // Drop writes the Close frame unless the closing handshake has been done
         let _ = tx.send((log, peak));
         finish_server_side(keep);
